@@ -128,22 +128,23 @@ def mutations(cfg: dict) -> Iterator[Tuple[str, dict, List[int]]]:
                         yield (f"sweep-expression-{label}", yamlrw.set_(cfg, dp + ("parameters", name), me), [i])
             for var, spec in derive["variables"].items():
                 vp = dp + ("variables", var)
-                if "values" in spec:
-                    vals = spec["values"]
+                if isinstance(spec, list) or "values" in spec:
+                    vals = spec if isinstance(spec, list) else spec["values"]
+                    valp = vp if isinstance(spec, list) else vp + ("values",)
                     for j in range(len(vals)):
                         nv = list(vals)
                         nv[j] = nv[j] + 0.5
-                        yield (f"sweep-sequence-element[{j}/{len(vals)}]", yamlrw.set_(cfg, vp + ("values",), nv), [i])
+                        yield (f"sweep-sequence-element[{j}/{len(vals)}]", yamlrw.set_(cfg, valp, nv), [i])
                         for tv in yamlrw.type_mutants(vals[j]):
                             nv = list(vals)
                             nv[j] = tv
-                            yield (f"sweep-sequence-element-type[{j}/{len(vals)}]", yamlrw.set_(cfg, vp + ("values",), nv), [i])
+                            yield (f"sweep-sequence-element-type[{j}/{len(vals)}]", yamlrw.set_(cfg, valp, nv), [i])
                     allt = [yamlrw.type_mutants(x)[0] if yamlrw.type_mutants(x) else x for x in vals]
                     if allt != list(vals) or any(type(a) is not type(b) for a, b in zip(allt, vals)):
-                        yield ("sweep-sequence-all-types", yamlrw.set_(cfg, vp + ("values",), allt), [i])
-                    yield ("sweep-sequence-append", yamlrw.set_(cfg, vp + ("values",), list(vals) + [vals[-1]]), [i])
+                        yield ("sweep-sequence-all-types", yamlrw.set_(cfg, valp, allt), [i])
+                    yield ("sweep-sequence-append", yamlrw.set_(cfg, valp, list(vals) + [vals[-1]]), [i])
                     if len(vals) > 1 and vals[0] != vals[1]:
-                        yield ("sweep-sequence-swap", yamlrw.set_(cfg, vp + ("values",), [vals[1], vals[0]] + list(vals[2:])), [i])
+                        yield ("sweep-sequence-swap", yamlrw.set_(cfg, valp, [vals[1], vals[0]] + list(vals[2:])), [i])
                 elif "from_context" in spec:
                     yield ("sweep-from-context-key", yamlrw.set_(cfg, vp + ("from_context",), spec["from_context"] + "2"), [i])
                 else:
